@@ -20,9 +20,10 @@ PROPS['C08'] = {
     'kani': [],
     'oracle': 'C08',
     'decided': ['ShiftAnd, KMP, Horspool, BNDM: every call of Matches::next returns the next occurrence at or after the frontier, skips none, and None only when no occurrence remains (hence increasing, duplicate-free, complete), for every pattern 1..=64 (bit-parallel) / any length and every text',
-                'mask/shift/lps tables built by masks, Horspool::new, lps equal their definitions'],
+                'mask/shift/lps tables built by masks (forward instance for ShiftAnd, reversed instance for BNDM), Horspool::new, lps equal their definitions',
+                'constructors and find_all of all four matchers: new(p) yields a well-formed matcher whose abstract pattern IS p (recoverable from the tables), find_all starts from a pattern-only state at frontier 0 — so a matcher built once gives the same answers on every text'],
     'undecided': ['BOM (factor-oracle completeness theorem out of reach; no contract decides it)',
-                  'constructors/find_all wrappers of ShiftAnd, KMP, BNDM (struct literal plumbing) are not yet under contract'],
+                  ],
     'trusted': ['Enumerate<slice::Iter<u8>>::next model (assume_specification)', 'iterator parameters instantiated at byte slices (rules R6*, INST)'],
     'level_text': 'Verus proves the iterator contract (next occurrence, none skipped, termination) on the real next() of four of the five matchers and the table-construction functions, for all patterns and texts; BOM is not decided.',
     'level_note': 'Trusted: Verus/Z3, Enumerate::next model, instantiation of the generic iterator parameters at &[u8]; BOM undecided; see evidence assumptions.',
